@@ -532,7 +532,8 @@ Definition fun_table : list (string * gclass) :=
     ("connection.onActiveRespondEvent", GWriter); ("connection.onWriteExecutionEvent", GWriter);
     ("connection.curSeq", GWriter); ("connection.curSeq$1", GWriter);
     ("connection.onActiveEvent$1", GTimer);
-    ("GoJT808.SendActiveMessage", GCaller); ("sessionManager.write", GCaller) ].
+    ("GoJT808.SendActiveMessage", GCaller); ("sessionManager.write", GCaller);
+    ("defaultTerminalEvent.OnJoinEvent", GReader); ("defaultTerminalEvent.OnLeaveEvent", GReader) ].
 
 (* which abstract location a field of a statically placed struct is *)
 Definition field_table : list (string * string * lclass) :=
@@ -542,7 +543,7 @@ Definition field_table : list (string * string * lclass) :=
     ("connection", "joinFunc", XConn); ("connection", "leaveFunc", XConn); ("connection", "filter", XConn);
     ("connection", "terminalEvent", XConn);
     ("connection", "handles", XHandles); ("connection", "platformSerialNumber", XSerial); ("connection", "key", XKey);
-    ("connection", "joined", XKey);
+    ("connection", "joined", XKey); ("defaultTerminalEvent", "createTime", XKey);
     ("packageParse", "historyData", XBuf); ("packageParse", "subcontractingRecord", XBuf);
     ("packageParse", "timeoutRecord", XBuf);
     ("packageComplete", "createTime", XBuf); ("packageComplete", "updateTime", XBuf); ("packageComplete", "initHeader", XBuf);
@@ -561,6 +562,7 @@ Definition field_type_table : list (string * string * string) :=
     ("connection", "platformSerialNumber", "uint16"); ("connection", "joinFunc", "func/2/2");
     ("connection", "leaveFunc", "func/1/0"); ("connection", "key", "string"); ("connection", "joined", "bool");
     ("connection", "filter", "bool"); ("connection", "terminalEvent", "TerminalEventer");
+    ("defaultTerminalEvent", "createTime", "time.Time");
     ("packageComplete", "createTime", "time.Time"); ("packageComplete", "updateTime", "time.Time");
     ("packageComplete", "initHeader", "*jt808.Header");
     ("packageParse", "historyData", "[]byte"); ("packageParse", "subcontractingRecord", "map[uint16][][]byte");
@@ -698,7 +700,10 @@ Definition root_table : list (string * gclass) :=
     ("connection.reader", GReader); ("sessionManager.join", GReader); ("sessionManager.leave", GReader);
     ("connection.write", GWriter);
     ("connection.onActiveEvent$1", GTimer);
-    ("GoJT808.SendActiveMessage", GCaller) ].
+    ("GoJT808.SendActiveMessage", GCaller);
+    (* the default TerminalEventer: called through the interface by the reader of ITS connection (one object per
+       connection: Gen/TablesOk_race.v race_default_eventer_fresh) *)
+    ("defaultTerminalEvent.OnJoinEvent", GReader); ("defaultTerminalEvent.OnLeaveEvent", GReader) ].
 
 (* what a closure that runs in another goroutine (a root closure) may capture from the function that creates
    it.  Variables are classified by what they are, not by their names: a channel is a synchronisation object
